@@ -177,6 +177,14 @@ def main(argv):
                 ctx.disagreement("Lean Client.call differs from the implementation under the same script",
                                  {"sequence": case["sequence"][-3:], "impl": {"res": r, "open": sock_open, "unread": unread, "sent": hx(sent[:60])}, "model": o[:200], "line": line[:300]},
                                  theorem="C01_call_clean")
+    # composed model PooledClient ∘ Client (Pymc/Model/PooledCall.lean): random histories with per-call scripts on the real PooledClient,
+    # compared call by call (result, inner client, socket used / held, bytes left unread, order of closes)
+    if ctx.lean.build_ok:
+        import pooledcall_diff
+        ncalls, bad = pooledcall_diff.differential(4000 if ctx.thorough else 600, rng, ctx.driver.batch)
+        ctx.count("composed-model-calls", ncalls)
+        for b in bad[:5]:
+            ctx.disagreement("composed Lean model PooledClient∘Client differs from the real PooledClient", b, theorem="C01_pooled_own_bytes_only")
     ctx.assumptions = ["the server emits exactly one reply unit per reply-expecting command (framing grammar of DESIGN.md C01); content inside a unit is adversarial",
                        "late delivery after a timeout is modelled as bytes that stay in the pipe of that connection", "BaseException faults are C10"]
     ctx.finish()
